@@ -6,7 +6,7 @@
 
 using namespace vh;
 
-static long ham_ncases(const std::string& tier) { return tier == "thorough" ? 40000 : 320; }
+static long ham_ncases(const std::string& tier) { return tier == "thorough" ? 120000 : 320; }
 
 static void ham_run(Ctx& c) {
     Rng& r = c.rng;
